@@ -106,6 +106,18 @@ Theorem C21_array_is_list : forall H key s0 ops, array_slots_ok H key ->
 Proof. exact array_is_list. Qed.
 Print Assumptions C21_array_is_list.
 
+(* the view depends on the store only: from the store reached by any earlier history (the state a
+   rollback resets to), through whichever handle, the results are those of the list reached by it *)
+Theorem C21_array_resume : forall H key s0 ops1 ops2, array_slots_ok H key ->
+  kv_get s0 (array_size_key H key) = None ->
+  (forall i, in_i64 i -> kv_get s0 (array_elem_key H key i) = None) ->
+  Forall aop_ok ops1 -> Forall aop_ok ops2 -> (Z.of_nat (length ops1 + length ops2) < max_len)%Z ->
+  arr_run (array_size_key H key) (array_elem_key H key)
+    (arr_exec (array_size_key H key) (array_elem_key H key) s0 ops1) ops2
+  = lst_run (lst_exec [] ops1) ops2.
+Proof. exact array_resume. Qed.
+Print Assumptions C21_array_resume.
+
 (* its hypothesis holds for the RLP and raw builders under every prefix; with the hashed
    builder two slots can only coincide through a collision of H *)
 Theorem C21_array_slots_rlp : forall H acc, array_slots_ok H (BRlp acc).
